@@ -543,6 +543,8 @@ def run(rep):
     import checks.c09_split as c09
     for kind in ("stdp", "triplet", "mstdp", "mstdpet"):
         jobs.append((c08.reduction_shard, (kind, "dense", (1, 1), 1.0, "hebbian", "sum")))
+        if kind in ("mstdp", "mstdpet"):  # the documented default of the three-factor rules IS the sum
+            jobs.append((c08.reduction_shard, (kind, "dense", (1, 1), 1.0, "dep", "default")))
     jobs.append((c09.kernel_parts_shard, (2 if quick else 3, 2.0)))
     for param in ("weight", "bias", "delay"):
         for how in ("ctor", "override"):
